@@ -1,33 +1,31 @@
-import DuneVerif.Model.C04
+import DuneVerif.Model.C04F
 import DuneVerif.Common.Proto
 /-!
 line-protocol driver for C04 (format: see harness/mpi_c04.cc)
 
   c04 <P> <flags> <hints> : seg;seg;...
 
-The driver keeps, for every rank, three index set objects (source, target, unrelated) as sorted pair lists with
-their sequence numbers plus the pending adds/deletes of the harness protocol, and one `RIState`.  `B<ign>` runs
-`RIState.rebuild` with `buildRemoteStd` on the snapshot of all ranks, `S` prints `isSynced`.
+The driver keeps the model's `World` (per rank: three index set objects with their sequence numbers, which of them
+are source and target, includeSelf, hints, the `RIState`) plus the pending adds/deletes of the harness protocol.
+Every segment becomes `World.step` events of the faithful model `DV.C04.F`: `R`/`r` → `resize` with the new contents,
+`B<ign>` → the collective `rebuild` (all ranks, ring rounds or network-level neighbour exchange), `F` → `free`,
+`X<k>` → `setIndexSets`, `I` → `setIncludeSelf`, `N` → `setNeighbours`; `S` prints `isSynced`.
 -/
-open DV DV.C04
+open DV DV.C04 DV.C04.F
 
 namespace C04Drv
 
-structure ISet where
-  pairs : List Pair := []
-  seq : Nat := 0
-  adds : List Pair := []      -- pending adds (in op-line order)
-  dels : List Int := []       -- pending deletes
+/-- pending adds (in op-line order) and deletes of one index set object -/
+structure Pend where
+  adds : List Pair := []
+  dels : List Int := []
   deriving Inhabited
 
-structure RankSt where
-  obj : Array ISet := #[{}, {}, {}]
-  two : Bool := false
-  incl : Bool := false
-  hints : List Nat := []
-  ri : RIState := {}
-  out : List String := []     -- observations, reversed
-  deriving Inhabited
+structure St where
+  w : World
+  pend : Array (Array Pend)     -- [rank][object]
+  two : Array Bool
+  out : Array (List String)     -- observations per rank, reversed
 
 /-- insert into a list sorted by (global, attribute) — the order `ParallelIndexSet::endResize` establishes -/
 def insertPair (x : Pair) : List Pair → List Pair
@@ -35,10 +33,9 @@ def insertPair (x : Pair) : List Pair → List Pair
   | y :: ys => if x.g < y.g ∨ (x.g = y.g ∧ x.a < y.a) then x :: y :: ys else y :: insertPair x ys
 
 /-- the harness protocol's resize: (old \ deleted) + the adds whose (global, attribute) is new -/
-def applyResize (s : ISet) : ISet :=
-  let kept := s.pairs.filter (fun p => !s.dels.contains p.g)
-  let res := s.adds.foldl (fun acc e => if acc.any (fun p => p.g == e.g && p.a == e.a) then acc else insertPair e acc) kept
-  { pairs := res, seq := s.seq + 1, adds := [], dels := [] }
+def newPairs (old : List Pair) (pe : Pend) : List Pair :=
+  let kept := old.filter (fun p => !pe.dels.contains p.g)
+  pe.adds.foldl (fun acc e => if acc.any (fun p => p.g == e.g && p.a == e.a) then acc else insertPair e acc) kept
 
 def showIdx (x : RIdx) : String :=
   "(" ++ toString x.loc.g ++ "," ++ toString x.ra ++ "," ++ toString x.loc.l ++ "," ++ toString x.loc.a ++ ")"
@@ -54,81 +51,126 @@ def showIdxs (l : List RIdx) : String := "[" ++ ",".intercalate ((canon l).map s
 def showMap (m : RMap) : String :=
   "b" ++ " ".intercalate (m.map fun e => toString e.1 ++ ":" ++ showIdxs e.2.1 ++ "|" ++ showIdxs e.2.2)
 
-def getObj (r : RankSt) (i : Nat) : ISet := r.obj.getD i {}
+/-- the object behind role `s` (0 source, 1 target, 2 unrelated) of a rank -/
+def objOf (r : RankW) (s : Nat) : Nat := if s == 2 then 2 else if s == 0 then r.srcObj else r.tgtObj
 
-/-- index of the object that is rank r's source (0) / target (1, or 0 for one index set) / unrelated (2) set -/
-def objOf (r : RankSt) (s : Nat) : Nat := if s == 1 && !r.two then 0 else s
+def getPend (st : St) (r o : Nat) : Pend := (st.pend.getD r #[]).getD o {}
+def setPend (st : St) (r o : Nat) (p : Pend) : St :=
+  { st with pend := st.pend.setIfInBounds r ((st.pend.getD r #[]).setIfInBounds o p) }
 
-def snapshot (rs : Array RankSt) : System :=
-  { P := rs.size,
-    rank := fun p =>
-      let r := rs.getD p {}
-      { src := (getObj r 0).pairs, tgt := (getObj r 1).pairs, two := r.two, incl := r.incl, hints := r.hints } }
+def note (st : St) (f : Nat → RankW → String) : St :=
+  { st with out := st.out.mapIdx fun p o => f p (st.w.getD p default) :: o }
 
-def parseNats? (ws : List String) : Option (List Nat) := ws.mapM (·.toNat?)
+/-- resize of the object behind role `s` on the ranks selected by `sel` -/
+def resize (st : St) (s : Nat) (sel : Nat → Bool) : St :=
+  (List.range st.w.length).foldl (fun st r =>
+    if !sel r then st else
+    let rw := st.w.getD r default
+    let o := objOf rw s
+    let np := newPairs (rw.obj o).pairs (getPend st r o)
+    match st.w.step (.resize r o np) with
+    | some w' => setPend { st with w := w' } r o {}
+    | none => st) st
 
-def step (rs : Array RankSt) (seg : String) : Option (Array RankSt) :=
+def parseHints (P : Nat) (h : String) : Option (List Nat) :=
+  if h == "-" then some [] else
+  match (h.splitOn ",").mapM (·.toNat?) with
+  | some l => if l.all (· < P) then some l else none
+  | none => none
+
+/-- the sanity rules of the harness: ring and neighbour mode are not mixed, hints are symmetric -/
+def hintsOk (P : Nat) (hl : List (List Nat)) : Bool :=
+  let ringOf (r : Nat) : Bool := (nbIds { hints := hl.getD r [] } r).isEmpty
+  let okMode := (List.range P).all fun r => ringOf r == ringOf 0
+  let okSym := (List.range P).all fun r => ringOf r ||
+    (hl.getD r []).all fun q => q == r || (hl.getD q []).contains r
+  okMode && okSym
+
+def step (st : St) (seg : String) : Option St :=
+  let P := st.w.length
   match seg.toList with
-  | [] => some rs
+  | [] => some st
   | kind :: restc =>
     let rest := String.ofList restc
     if kind == 'a' || kind == 'd' then
-      let f := rest.splitOn ","
-      match f with
+      match rest.splitOn "," with
       | s :: r :: g :: more =>
         match s.toNat?, r.toNat?, g.toInt? with
         | some s, some r, some g =>
-          if s > 1 || r ≥ rs.size then none else
-          let st := rs.getD r {}
+          if s > 1 || r ≥ P then none else
+          let rw := st.w.getD r default
+          let isTwo := st.two.getD r false
+          let o := objOf rw s
           if kind == 'a' then
             match more with
             | [l, a, pb] =>
               match l.toNat?, a.toNat? with
               | some l, some a =>
                 if a > 3 then none else
-                if s == 1 && !st.two then some rs else
-                let o := getObj st s
-                let o' := { o with adds := o.adds ++ [{ g := g, l := l, a := a, pub := pb == "1" }] }
-                some (rs.setIfInBounds r { st with obj := st.obj.setIfInBounds s o' })
+                if s == 1 && !isTwo then some st else
+                let pe := getPend st r o
+                some (setPend st r o { pe with adds := pe.adds ++ [{ g := g, l := l, a := a, pub := pb == "1" }] })
               | _, _ => none
             | _ => none
           else
             match more with
             | [] =>
-              if s == 1 && !st.two then some rs else
-              let o := getObj st s
-              let o' := { o with adds := o.adds.filter (fun e => e.g != g), dels := g :: o.dels }
-              some (rs.setIfInBounds r { st with obj := st.obj.setIfInBounds s o' })
+              if s == 1 && !isTwo then some st else
+              let pe := getPend st r o
+              some (setPend st r o { adds := pe.adds.filter (fun e => e.g != g), dels := g :: pe.dels })
             | _ => none
         | _, _, _ => none
       | _ => none
     else if kind == 'R' then
       match rest.toNat? with
-      | some s =>
-        if s > 2 || rest.length != 1 then none else
-        some (rs.map fun st =>
-          let i := objOf st s
-          { st with obj := st.obj.setIfInBounds i (applyResize (getObj st i)) })
+      | some s => if s > 2 || rest.length != 1 then none else some (resize st s fun _ => true)
       | none => none
+    else if kind == 'r' then
+      match rest.splitOn "," with
+      | [s, r] =>
+        match s.toNat?, r.toNat? with
+        | some s, some r => if s > 2 || r ≥ P then none else some (resize st s fun q => q == r)
+        | _, _ => none
+      | _ => none
     else if kind == 'S' then
-      if rest != "" then none else
-      some (rs.map fun st =>
-        let sy := st.ri.isSynced (getObj st 0).seq (getObj st (objOf st 1)).seq
-        { st with out := (if sy then "s1" else "s0") :: st.out })
+      if rest != "" then none else some (note st fun _ r => if r.isSynced then "s1" else "s0")
     else if kind == 'B' then
       if rest != "0" && rest != "1" then none else
       let ign := rest == "1"
-      let sys := snapshot rs
-      some (rs.mapIdx fun p st =>
-        let ri' := st.ri.rebuild ign (getObj st 0).seq (getObj st (objOf st 1)).seq (fun _ => buildRemoteStd ign sys p)
-        { st with ri := ri', out := showMap ri'.remote :: st.out })
+      match st.w.step (.rebuild ign (stdArrivals st.w.sys)) with
+      | none => some (note st fun _ _ => "b!")
+      | some w' => some (note { st with w := w' } fun _ r => showMap r.ri.remote)
+    else if kind == 'F' then
+      if rest != "" then none else
+      let w' := (List.range P).foldl (fun w p => (w.step (.free p)).getD w) st.w
+      some (note { st with w := w' } fun _ r => "f" ++ toString r.ri.remote.length)
+    else if kind == 'X' then
+      if rest != "0" && rest != "1" then none else
+      let swap := rest == "1"
+      let w' := (List.range P).foldl (fun w p =>
+        let r := w.getD p default
+        let (s, t) := if swap then (r.tgtObj, r.srcObj) else (r.srcObj, r.tgtObj)
+        (w.step (.setSets p s t r.hints)).getD w) st.w
+      some (note { st with w := w' } fun _ r => "x" ++ toString r.ri.remote.length)
+    else if kind == 'I' then
+      match rest.splitOn "," with
+      | [r, b] =>
+        match r.toNat? with
+        | some r =>
+          if r ≥ P || (b != "0" && b != "1") then none else
+          (st.w.step (.setIncl r (b == "1"))).map fun w' => { st with w := w' }
+        | none => none
+      | _ => none
+    else if kind == 'N' then
+      let hs := rest.splitOn "/"
+      if hs.length != P then none else
+      match hs.mapM (parseHints P) with
+      | none => none
+      | some hl =>
+        if !hintsOk P hl then none else
+        let w' := (List.range P).foldl (fun w p => (w.step (.setNb p (hl.getD p []))).getD w) st.w
+        some { st with w := w' }
     else none
-
-def parseHints (P : Nat) (h : String) : Option (List Nat) :=
-  if h == "-" then some [] else
-  match parseNats? (h.splitOn ",") with
-  | some l => if l.all (· < P) then some l else none
-  | none => none
 
 def handle (line : String) : String :=
   let parts := line.splitOn " : "
@@ -145,22 +187,20 @@ def handle (line : String) : String :=
       match hs.mapM (parseHints P) with
       | none => "bad-op"
       | some hl =>
-        if !fl.all (fun c => '0' ≤ c && c ≤ '3') then "bad-op" else
-        let init : Array RankSt := (List.range P).toArray.map fun r =>
-          let f := (fl.getD r '0').toNat - '0'.toNat
-          { two := f % 2 == 1, incl := f / 2 == 1, hints := hl.getD r [] }
-        -- the same sanity rules as the harness: ring and neighbour mode are not mixed, hints are symmetric
-        let ringOf (r : Nat) : Bool := (nbIds { hints := hl.getD r [] } r).isEmpty
-        let okMode := (List.range P).all fun r => ringOf r == ringOf 0
-        let okSym := (List.range P).all fun r => ringOf r ||
-          (hl.getD r []).all fun q => q == r || (hl.getD q []).contains r
-        if !okMode || !okSym then "bad-op" else
+        if !fl.all (fun c => '0' ≤ c && c ≤ '7') then "bad-op" else
+        if !hintsOk P hl then "bad-op" else
+        let flag (r : Nat) : Nat := (fl.getD r '0').toNat - '0'.toNat
+        let w : World := (List.range P).map fun r =>
+          { srcObj := 0, tgtObj := if flag r % 2 == 1 then 1 else 0, incl := (flag r / 2) % 2 == 1, hints := hl.getD r [] }
+        let init : St := { w := w, pend := (List.range P).toArray.map fun _ => #[{}, {}, {}],
+                           two := (List.range P).toArray.map fun r => flag r % 2 == 1,
+                           out := (List.range P).toArray.map fun _ => [] }
         let segs := (String.ofList (body.toList.filter (· != ' '))).splitOn ";"
         match segs.foldlM step init with
         | none => "bad-op"
         | some fin =>
           " ".intercalate ((List.range P).map fun r =>
-            "r" ++ toString r ++ "{" ++ ";".intercalate ((fin.getD r {}).out.reverse) ++ "}")
+            "r" ++ toString r ++ "{" ++ ";".intercalate ((fin.out.getD r []).reverse) ++ "}")
   | _ => "bad-op"
 
 end C04Drv
